@@ -1,5 +1,6 @@
 CONSTANTS
   FieldNums <- Seq10
+  PairNums <- Pairs1
   CountNums <- Counts4
   MsgTypes <- Msgs3
   AdminTypes = {"UC"}
